@@ -31,6 +31,12 @@ CHECKS = {
  "C09": dict(technique="history invariant over a harness-recorded event timeline under owned schedules (same harness as C08), mutation operations only",
              text="For mutation operations the timeline of submit/invoke/call/done events recorded by the owned pool, gates and resolvers must keep all events of an earlier top-level field before any event of a later one, in every configuration and completion order; all top-level fields run even after failures; key order and data equal the reference.",
              note="Trusted: vlib/sched/run.py event recording; submit time is taken as earliest possible invocation for pool tasks.", ref="3/C09"),
+ "C16": dict(technique="single-timeline history invariant: recording instrumentations/middlewares/resolvers under owned schedules, compared with the reference executor's resolved-field list",
+             text="Requests of all outcome classes run in five configurations with stacked recording instrumentations, middlewares and an ApolloTracer appending to one timeline; stage hooks must nest, stacks start in order and end reversed, field hooks fire exactly once per field the reference executor resolves and bracket the resolver, middlewares are entered last-first exactly once, the tracer payload lists each resolved path once.",
+             note="Trusted: vlib/sched/run.py, recorders in props/c16.py, vlib/ref/exec.py field list.", ref="3/C16"),
+ "C17": dict(technique="PBT over event streams with per-event deterministic worlds and gated sources; per-event differential against the reference executor; refusal cases with pull counter",
+             text="Subscription operations over generated schemas are driven with 0-8 events through plain and coroutine subscription resolvers whose sources and coroutine field resolvers await harness gates; one result per event, in order, equal to the reference executor on that event, no foreign errors; documented refusals raise before the source is pulled.",
+             note="Trusted: EvWorld/Source/driver in props/c17.py, vlib/ref/exec.py.", ref="3/C17"),
 }
 ALL = ["C%02d" % i for i in range(1, 21)]
 NA_REASON = "check not built yet (work in progress; see DESIGN.md section 3 for the planned design)"
